@@ -37,7 +37,7 @@ fn e2e_scenario(seed: u64, i: usize, tier: Tier) -> Outcome {
     tcfg.max_round = ms(400);
     tcfg.grace = ms(2);
     tcfg.tcp_connect_timeout = ms(100);
-    tcfg.max_rounds = Some(tier.pick(12, 400));
+    tcfg.max_rounds = Some(tier.pick(12, 300));
     if cell.v6 && tcfg.packet_size < 48 {
         tcfg.packet_size = 104;
     }
@@ -276,7 +276,7 @@ fn walk_job(seed: u64, j: usize, tier: Tier) -> Outcome {
 
 pub fn run(tier: Tier, seed: u64, only: Option<String>) -> i32 {
     let mut rep = Report::new("C07", "exploration", tier, seed);
-    rep.rule = "observation A (e2e): TCP worlds with address-in-use storms (0..90% of binds fail, i.e. up to several hundred re-issues per round, exhausting the 512 budget), ICMP/UDP worlds with 254-hop silent paths, Dublin/IPv6 worlds, at initial sequences {0, 33434, 64000, 64257, 64510, 64511}, 12..400 rounds so that the wrap occurs inside the run; observation B: the real TracerState driven through the SeqMachine hook: for boundary initial sequences and both maximum-sequence regimes, rounds of size k (quick: k in {0,1,2,253,254,255,256,511,512}; thorough: every k in 0..=512 for the small state spaces) from every first-round offset until the start sequence repeats; nodes/edges of the (round start, round size) graph are counted in the counters; distinct by (scenario shape | walked allocator configuration)".into();
+    rep.rule = "observation A (e2e): TCP worlds with address-in-use storms (0..90% of binds fail, i.e. up to several hundred re-issues per round, exhausting the 512 budget), ICMP/UDP worlds with 254-hop silent paths, Dublin/IPv6 worlds, at initial sequences {0, 33434, 64000, 64257, 64510, 64511}, 12..300 rounds so that the wrap occurs inside the run; observation B: the real TracerState driven through the SeqMachine hook: for boundary initial sequences and both maximum-sequence regimes, rounds of size k (quick: k in {0,1,2,253,254,255,256,511,512}; thorough: every k in 0..=512 for the small state spaces) from every first-round offset until the start sequence repeats; nodes/edges of the (round start, round size) graph are counted in the counters; distinct by (scenario shape | walked allocator configuration)".into();
     rep.assumptions = vec![
         "'a sequence used in the preceding round is never valid in the current one' is decided on its observable content: the sets of sequence numbers issued in consecutive rounds are disjoint (and C03 separately shows that late responses complete nothing); how many previous-round numbers the raw window test in_round() would still accept is reported as a metric (counter metric_prev_round_numbers_still_inside_window), not judged".into(),
         "the Dublin/IPv6 payload bound is judged for rounds a UDP trace can produce (at most 254 sequences per round, no re-issues)".into(),
@@ -294,7 +294,7 @@ pub fn run(tier: Tier, seed: u64, only: Option<String>) -> i32 {
         "walk_disjoint_from_previous_round",
         "capacity_exhausted_exactly_at_512",
     ];
-    let n = tier.pick(1500, 6000);
+    let n = tier.pick(1500, 2000);
     let walks = tier.pick(6, 12);
     match only {
         Some(s) if s.starts_with('w') => rep.merge(walk_job(seed, s[1..].parse().unwrap_or(0), tier)),
